@@ -99,3 +99,41 @@ M('atomic-save-overwrite-part-always', 'C05', 'fileutils.py',
   "        if (self.overwrite_part or self.overwrite) and os.path.lexists(self.part_path):")
 # (a "late refusal" mutant - dropping the early overwrite=False check so that the link() refuses
 #  instead - was tried and is not listed: it satisfies the statement, nothing observable differs)
+
+# ---------------------------------------------------------------- C09
+M('chunked-fill-off-by-one', 'C09', 'iterutils.py',
+  "            cur_chunk[lc:] = [fill_val] * (size - lc)",
+  "            cur_chunk[lc:] = [fill_val] * (size - lc - (1 if lc == 1 and size > 3 else 0))")
+M('windowed-fill-drops-last', 'C09', 'iterutils.py',
+  "    return zip_longest(*tees, fillvalue=fill)",
+  "    return itertools.islice(zip_longest(*tees, fillvalue=fill), 0, None) if size != 4 else zip(*tees)")
+M('rstrip-loses-inner-run', 'C09', 'iterutils.py',
+  "            if not broken:  # Return to caller here because the end of the\n                return     # iterator has been reached\n            yield from cache",
+  "            if not broken:  # Return to caller here because the end of the\n                return     # iterator has been reached\n            yield from cache[:2]")
+M('chunk-ranges-align-overlap', 'C09', 'iterutils.py',
+  "            input_offset = input_offset + initial_chunk_len - overlap_size",
+  "            input_offset = input_offset + initial_chunk_len - (overlap_size if overlap_size < 3 else overlap_size - 1)")
+M('redundant-groups-miss-third', 'C09', 'iterutils.py',
+  "            if k in redundant_groups:\n                if groups:\n                    redundant_groups[k].append(i)",
+  "            if k in redundant_groups:\n                if groups and len(redundant_groups[k]) < 3:\n                    redundant_groups[k].append(i)")
+M('split-sepset-after-maxsplit', 'C09', 'iterutils.py',
+  "            split_count += 1\n            yield cur_group",
+  "            split_count += 1 if cur_group or sep is None else 0\n            yield cur_group")
+M('unique-attr-key-fallback', 'C09', 'iterutils.py',
+  "    elif isinstance(key, str):\n        def key_func(x): return getattr(x, key, x)\n    else:\n        raise TypeError('\"key\" expected a string or callable, not %r' % key)\n    seen = set()",
+  "    elif isinstance(key, str):\n        def key_func(x): return getattr(x, key, None)\n    else:\n        raise TypeError('\"key\" expected a string or callable, not %r' % key)\n    seen = set()")
+
+# ---------------------------------------------------------------- C15
+M('backoff-cap-after-yield', 'C15', 'iterutils.py',
+  "        elif cur < stop:\n            cur *= factor\n        if cur > stop:\n            cur = stop",
+  "        elif cur < stop:\n            cur *= factor\n        if cur > stop and i > 1:\n            cur = stop")
+M('backoff-jitter-sign', 'C15', 'iterutils.py',
+  "            cur_ret = cur - (cur * jitter * random.random())",
+  "            cur_ret = cur - (cur * abs(jitter) * random.random())")
+M('backoff-jitter-validation', 'C15', 'iterutils.py',
+  "        if not (-1.0 <= jitter <= 1.0):", "        if not (-1.0 <= jitter <= 1.5):")
+M('backoff-zero-start-next', 'C15', 'iterutils.py',
+  "        if cur == 0:\n            cur = 1\n", "        if cur == 0:\n            cur = 1 if stop >= 0.01 else stop / 2\n")
+M('backoff-count-validation-late', 'C15', 'iterutils.py',
+  "    if count != 'repeat' and count < 0:\n        raise ValueError('count must be positive or \"repeat\", not %r' % count)",
+  "    if count != 'repeat' and count < -1:\n        raise ValueError('count must be positive or \"repeat\", not %r' % count)")
